@@ -132,7 +132,7 @@ func (r *report) crossCheck(s2 *runSummary, solver string) {
 					r.confNotes = append(r.confNotes, fmt.Sprintf("%s could not decide %s/%s (%s); primary verdict %s kept", solver, jr.Job.ID, ob.Label, ob.Note, p))
 					continue
 				}
-				r.cross = append(r.cross, fmt.Sprintf("%s/%s: z3=%s %s=%s", jr.Job.ID, ob.Label, p, solver, ob.Status))
+				r.cross = append(r.cross, fmt.Sprintf("%s/%s: %s=%s %s=%s", jr.Job.ID, ob.Label, r.pd.solver(), p, solver, ob.Status))
 			}
 		}
 	}
@@ -358,17 +358,28 @@ func keysB(m map[string]bool) []string {
 func (r *report) finish() int {
 	code := 0
 	nviol := 0
+	knownCount := map[string]int{}
+	knownFirst := map[string]*violation{}
+	var knownOrder []string
 	for _, v := range r.viols {
 		if !v.Reproduced {
 			continue
 		}
 		if v.Known != "" {
-			fmt.Printf("KNOWN-FINDING: property=%s %s (job %s, obligation %s) witness=%s\n", r.pd.ID, v.Known, v.Job.ID, v.Label, v.ReplayPath)
+			if knownCount[v.Known] == 0 {
+				knownOrder = append(knownOrder, v.Known)
+				knownFirst[v.Known] = v
+			}
+			knownCount[v.Known]++
 			continue
 		}
 		nviol++
 		fmt.Printf("VIOLATION property=%s replay=%s job=%s obligation=%s %s\n", r.pd.ID, v.ReplayPath, v.Job.ID, v.Label, v.Note)
 		code = 1
+	}
+	for _, k := range knownOrder {
+		v := knownFirst[k]
+		fmt.Printf("KNOWN-FINDING: property=%s %s (%d obligation instances inside the listed region; e.g. job %s, obligation %s, witness=%s)\n", r.pd.ID, k, knownCount[k], v.Job.ID, v.Label, v.ReplayPath)
 	}
 	for _, c := range r.cross {
 		r.incon = append(r.incon, "cross-solver disagreement: "+c)
@@ -419,9 +430,17 @@ func (r *report) writeEvidence(nviol int) {
 	if len(samples) == 0 {
 		samples = []interface{}{"no obligations were produced"}
 	}
-	solvers := []string{"z3 4.8.12"}
+	verName := map[string]string{"z3": "z3 4.8.12", "z3-new": "z3 5.1.0 (z3-new)", "cvc5": "cvc5 1.0.3", "cvc5-int": "cvc5 1.0.3 --solve-bv-as-int=sum"}
+	solvers := []string{verName[r.pd.solver()] + " (primary)"}
+	for _, f := range r.pd.Fallbacks {
+		solvers = append(solvers, verName[f]+" (fallback on unknown)")
+	}
 	if r.tier == "thorough" && !r.pd.SingleSolver {
-		solvers = append(solvers, "cvc5 1.0.3", "z3 5.1.0 (z3-new)")
+		for _, sv := range []string{"cvc5", "z3-new"} {
+			if sv != r.pd.solver() {
+				solvers = append(solvers, verName[sv]+" (cross-check)")
+			}
+		}
 	}
 	cov := map[string]interface{}{
 		"states":                        max1(r.paths),
